@@ -20,9 +20,9 @@ TRUSTED = [
 ]
 ASSUMPTIONS = [
     "params texts are valid UTF-8 (a Rust &str); the generators only emit valid UTF-8",
-    "floats are lexemes in the model: outputs are compared after mapping every number that is not an i64/u64 integer to Python's "
-    "float(lexeme) on both sides, so the generators avoid literals where serde_json's default (non-float_roundtrip) float parser "
-    "is not correctly rounded (9007199254740993.0) and literals outside the f64 range (1e999), which serde rejects",
+    "floats are lexemes in the model: numbers that are not i64/u64 integers are compared as Python float(lexeme) on both sides with "
+    "relative tolerance 1e-14 (serde_json's default, non-float_roundtrip, float parser is not correctly rounded, e.g. 9007199254740993.0, "
+    "2.5e-31); literals outside the f64 range (1e999), which serde rejects, are outside the generators",
     "which serde error message is produced is not compared: every failure is reduced to its code",
     "the theorems are stated for the text Params stores (Params::new trims Unicode white space); C16_new_keeps_json links it to the raw text",
 ]
@@ -153,11 +153,15 @@ def expected(text, script):
         tree, cls = None, "none"
         elems = []
     else:
-        core = text.strip(RUST_WS)
         try:
-            tree = loads(core)
+            tree = loads(text)          # plain JSON parse of the text as given (JSON white space only)
         except (Bad, ValueError, RecursionError):
-            return None, "not-json"
+            try:
+                loads(text.strip(RUST_WS))
+                # JSON only after Params::new's Unicode trim: the property is silent, the model diff covers it
+                return None, "json-after-unicode-trim"
+            except (Bad, ValueError, RecursionError):
+                return None, "not-json"
         if isinstance(tree, list):
             elems, cls = list(tree), "array"
         else:
@@ -196,33 +200,83 @@ def expected(text, script):
     return exp, cls
 
 
-# ------------------------------------------------------------------ output normalisation (floats by value)
+# ------------------------------------------------------------------ output comparison (floats by value, with tolerance)
 TOK = re.compile(r'"(?:[^"\\]|\\.)*"|-?\d+(?:\.\d+)?(?:[eE][+-]?\d+)?')
+FTOL = 1e-14      # serde_json's default float parser may be off in the last bits; floats are not the property's subject
 
 
-def norm_json_text(s):
-    def f(m):
+def feq(a, b):
+    """two ('int', n) / ('float', repr) numbers denote the same serde number (floats up to FTOL, sign of zero kept)"""
+    if a[0] != b[0]:
+        return False
+    if a[0] == "int":
+        return a[1] == b[1]
+    x, y = float(a[1]), float(b[1])
+    if x == y:
+        return (a[1][0] == "-") == (b[1][0] == "-")
+    return abs(x - y) <= FTOL * max(abs(x), abs(y))
+
+
+def tree_eq(a, b):
+    if isinstance(a, tuple) and isinstance(b, tuple):
+        return feq(a, b)
+    if type(a) != type(b):
+        return False
+    if isinstance(a, list):
+        return len(a) == len(b) and all(tree_eq(x, y) for x, y in zip(a, b))
+    if isinstance(a, dict):
+        return a.keys() == b.keys() and all(tree_eq(a[k], b[k]) for k in a)
+    return a == b
+
+
+def json_tokens(s):
+    """compact JSON text -> token list: text between numbers verbatim, numbers classified as serde does"""
+    out, pos = [], 0
+    for m in TOK.finditer(s):
         x = m.group(0)
         if x[0] == '"':
-            return x
+            continue
+        out.append(s[pos:m.start()])
         try:
-            k, v = norm_num(x)
+            out.append(norm_num(x))
         except Bad:
-            return x
-        return str(v)
-    return TOK.sub(f, s)
+            out.append(x)
+        pos = m.end()
+    out.append(s[pos:])
+    return out
 
 
-def norm_line(line):
-    out = []
-    for p in line.split(" "):
-        if p.startswith("ok:"):
-            try:
-                p = "ok:" + norm_json_text(bytes.fromhex(p[3:]).decode("utf-8"))
-            except ValueError:
-                pass
-        out.append(p)
-    return " ".join(out)
+def tokens_eq(a, b):
+    if len(a) != len(b):
+        return False
+    for x, y in zip(a, b):
+        if isinstance(x, tuple) and isinstance(y, tuple):
+            if not feq(x, y):
+                return False
+        elif x != y:
+            return False
+    return True
+
+
+def lines_agree(a, b):
+    """implementation line vs model line: equal up to the float format of serde_json::Value numbers"""
+    if a == b:
+        return True
+    pa, pb = a.split(" "), b.split(" ")
+    if len(pa) != len(pb):
+        return False
+    for x, y in zip(pa, pb):
+        if x == y:
+            continue
+        if not (x.startswith("ok:") and y.startswith("ok:")):
+            return False
+        try:
+            tx, ty = bytes.fromhex(x[3:]).decode("utf-8"), bytes.fromhex(y[3:]).decode("utf-8")
+        except ValueError:
+            return False
+        if not tokens_eq(json_tokens(tx), json_tokens(ty)):
+            return False
+    return True
 
 
 # ------------------------------------------------------------------ generators
@@ -305,9 +359,8 @@ EDGE_TEXTS = [
 ]
 
 
-def gen_cases(ctx, types):
+def gen_cases(ctx, types, n, first_round=True):
     rng = ctx.rng
-    n = ctx.scale(60000, 1200000)
     tys = [(t, parse_ty(t)) for t in types]
     cases = []
 
@@ -395,7 +448,7 @@ def gen_cases(ctx, types):
             continue
         add(m, script if rng.random() < 0.6 else rnd_script(), "mutated")
     # exhaustive small space (thorough): every ordered pair of sequence reads over the universe on a few arrays
-    if ctx.thorough or ctx.search_mode:
+    if (ctx.thorough or ctx.search_mode) and first_round:
         reads = [(k, t) for k in ("next", "opt") for t in types]
         for text in (b'[1, "a"]', b"[null,[1,2]]", b'[ [1,"a"] , true ]', b"[ ]", b'[-1, {"k":[1]}]'):
             for a in reads:
@@ -458,7 +511,9 @@ def oracle(ctx, text, script, a, case):
     exp, cls = expected(s, script)
     ctx.count("oracle:" + cls)
     if exp is None:
-        # not JSON: whole-value reads must fail
+        if cls != "not-json":
+            return
+        # not JSON (even after trimming): whole-value reads must fail
         for (kind, _), r in zip(script, res):
             if kind in ("parse", "one") and r[0] != "err":
                 ctx.fail("oracle", "parse-accepts-non-json", case, a)
@@ -477,7 +532,7 @@ def oracle(ctx, text, script, a, case):
             except (Bad, ValueError) as ex:
                 ctx.fail("oracle", "output-not-json", case, {"read": i, "got": r[1], "why": str(ex)})
                 return
-            if got != e[1]:
+            if not tree_eq(got, e[1]):
                 ctx.fail("oracle", "read-disagrees-with-json-parse:value", case,
                          {"read": i, "expected": repr(e[1])[:200], "got": r[1][:200]})
                 return
@@ -491,20 +546,23 @@ def run(ctx):
     for t in types:
         parse_ty(t)
     ctx.extra["type_universe"] = types
-    cases = gen_cases(ctx, types)
-    lines = [line_of(t, s) for t, s, _ in cases]
-    ri = vlib.run_lines([impl], lines)
-    rm = vlib.run_lines([model], lines)
-    for (text, script, tag), line, a, b in zip(cases, lines, ri, rm):
-        ctx.count(tag)
-        ctx.count("script-len-%d" % len(script))
-        case = {"line": line, "text": None if text is None else text.decode("utf-8", "replace"), "script": ["%s:%s" % r for r in script]}
-        if norm_line(a) != norm_line(b):
-            ctx.fail("diff", "params-model-differs", case, {"impl": a, "model": b})
-        oracle(ctx, text, script, a, case)
-        ctx.record(case, a, nontrivial=(" ok:" in a))
-        for p in a.split(" ")[1:]:
-            ctx.count("result:" + p.split(":")[0])
+    # quick: one round of 200 000 cases; thorough: 8 rounds of 320 000 (bounded memory), the exhaustive pairs in the first
+    rounds, per_round = ctx.scale((1, 200000), (8, 320000))
+    for rnd in range(rounds):
+        cases = gen_cases(ctx, types, per_round, first_round=(rnd == 0))
+        lines = [line_of(t, s) for t, s, _ in cases]
+        ri = vlib.run_lines([impl], lines)
+        rm = vlib.run_lines([model], lines)
+        for (text, script, tag), line, a, b in zip(cases, lines, ri, rm):
+            ctx.count(tag)
+            ctx.count("script-len-%d" % len(script))
+            case = {"line": line, "text": None if text is None else text.decode("utf-8", "replace"), "script": ["%s:%s" % r for r in script]}
+            if not lines_agree(a, b):
+                ctx.fail("diff", "params-model-differs", case, {"impl": a, "model": b})
+            oracle(ctx, text, script, a, case)
+            ctx.record(case, a, nontrivial=(" ok:" in a))
+            for p in a.split(" ")[1:]:
+                ctx.count("result:" + p.split(":")[0])
 
 
 def replay(payload):
@@ -529,6 +587,6 @@ def replay(payload):
         script = [tuple(r.split(":", 1)) for r in case["line"].split(" ")[1:]]
         oracle(c, text, script, outs["impl"], case)
         print("oracle:", "holds" if not c.failures else "FAILS %s" % (c.failures[0][1],))
-        print("model == impl:", norm_line(outs["impl"]) == norm_line(outs["model"]))
+        print("model == impl:", lines_agree(outs["impl"], outs["model"]))
         return 1 if c.failures else 0
     return 0
